@@ -23,6 +23,84 @@ func init() {
 		Run: runRaftFidelity})
 }
 
+// fidelityRule registers a rule that restricts the SPEC-MATCH comparison to the generated packages of one
+// system family (and, optionally, to some of their units).
+type fidelityScope struct {
+	id, prop string
+	floor    int
+	pkgs     []string                // systems/<name> suffixes
+	skip     func(rest string) bool  // obligations (key without the pair name) that are not this property's business
+	doc      string
+}
+
+func registerFidelity(s fidelityScope) {
+	register(&core.Rule{ID: s.id, Props: []string{s.prop}, Floor: s.floor, Doc: s.doc, Run: func(c *core.Ctx) { runFidelity(c, s) }})
+}
+
+func init() {
+	const basis = " The invariants are stated and model-checked for the specification; they carry over to the Go only as long as the Go takes exactly the specification's steps. This is the static handle on them (the basis of the safety argument, not the invariant itself, and not a logical necessary condition: a deliberately different protocol has to come with its own specification)."
+	registerFidelity(fidelityScope{id: "KV-FIDELITY", prop: "C09", floor: 55, pkgs: []string{"systems/raftkvs"},
+		doc: "every critical section of the generated Raft store - servers (an entry is answered only when applied at the leader; Gets go through the log) and client (request numbering, retry, filtering of stale / duplicate responses by idx) -, every archetype table entry and operator definition is the image of raftkvs.tla." + basis})
+	registerFidelity(fidelityScope{id: "PB-FIDELITY", prop: "C14", floor: 35, pkgs: []string{"systems/pbkvs"},
+		doc: "every critical section of the generated primary-backup store (synchronous replication to all live backups before answering, synchronisation of a new primary to the highest version, client retry) and every table entry / operator definition is the image of pbkvs.tla." + basis})
+	registerFidelity(fidelityScope{id: "LOCK-FIDELITY", prop: "C15", floor: 15, pkgs: []string{"systems/locksvc"},
+		doc: "every critical section of the generated lock service (grant on empty queue, grant to the next in queue on unlock, queue append / tail) and every table entry / operator definition is the image of locksvc.tla." + basis})
+	registerFidelity(fidelityScope{id: "SYS-FIDELITY", prop: "C16", floor: 150,
+		pkgs: []string{"systems/dqueue", "systems/loadbalancer", "systems/proxy", "systems/shcounter", "systems/gcounter", "systems/shopcart", "systems/nestedcrdtimpl", "systems/replicatedkv"},
+		doc:  "every critical section, table entry and operator definition of the generated dqueue, load balancer, proxy, shared counter, gcounter, shopcart, nested CRDT and replicated KV systems is the image of its specification (this includes every assertion written in a specification: a dropped or weakened assert is a mismatch)." + basis})
+}
+
+func runFidelity(c *core.Ctx, s fidelityScope) {
+	tabs, err := scalatab.Load(c.Prog.Root)
+	if err != nil {
+		c.Lost("scala-tables", "%v", err)
+		return
+	}
+	pairs, pkgs := specPairs(c.Prog)
+	want := map[string]bool{}
+	for _, p := range s.pkgs {
+		want[an.ModPrefix+p] = false
+	}
+	for i, pr := range pairs {
+		if _, ok := want[pr[0]]; !ok {
+			continue
+		}
+		want[pr[0]] = true
+		name := an.ShortPkg(pr[0])
+		if pr[1] == "" {
+			c.Bad(name+"/spec", pkgs[i].Files[0].Pos(), "%s has no .tla file with an --mpcal block next to it", name)
+			continue
+		}
+		n := 0
+		for _, o := range specmatch.MatchPair(pkgs[i], pr[1], tabs, c.Prog.Fset, name, c.Prog.ReadFile) {
+			rest := strings.TrimPrefix(o.Key, name+"/")
+			if s.skip != nil && s.skip(rest) {
+				continue
+			}
+			n++
+			switch o.Verdict {
+			case "ok":
+				c.Ok(o.Key, o.Pos, "%s", o.Detail)
+			case "bad":
+				c.Bad(o.Key, o.Pos, "%s", o.Detail)
+			default:
+				c.Undecided(o.Key, o.Pos, "%s", o.Detail)
+			}
+		}
+		c.Count("obligations of "+name, n)
+	}
+	var missing []string
+	for p, ok := range want {
+		if !ok {
+			missing = append(missing, p)
+		}
+	}
+	sort.Strings(missing)
+	for _, p := range missing {
+		c.Lost(an.ShortPkg(p), "generated package %s (a package with a jump table) not found", p)
+	}
+}
+
 func runRaftFidelity(c *core.Ctx) {
 	tabs, err := scalatab.Load(c.Prog.Root)
 	if err != nil {
